@@ -36,8 +36,7 @@ var ErrBucketsExhausted = errors.New("limiters: all buckets are in use")
 // Amount of buckets is limited to a certain value. When the size of internal
 // map is around or equal to that value, next Take call will attempt to remove
 // any stale buckets from the group. If it is not possible to do so (all
-// buckets are in active use), Take will return false. Alternatively, in some
-// rare cases, some other (undefined) waiting Take can return false.
+// buckets are in active use), Take will return false.
 //
 // A BucksetSet without a New function assigned is no-op: Take and TakeContext
 // always succeed and Release does nothing.
@@ -59,6 +58,9 @@ type BucketSet struct {
 	m    map[string]*struct {
 		r       L
 		lastUse time.Time
+		// Amount of Take/TakeContext calls that are still waiting or
+		// succeeded and are not followed by Release yet.
+		users int
 	}
 }
 
@@ -70,6 +72,7 @@ func NewBucketSet(new_ func() L, reapInterval time.Duration, maxBuckets int) *Bu
 		m: map[string]*struct {
 			r       L
 			lastUse time.Time
+			users   int
 		}{},
 	}
 }
@@ -91,12 +94,11 @@ func (r *BucketSet) take(key string) L {
 		now := time.Now()
 		// Attempt to get rid of stale buckets.
 		for k, v := range r.m {
-			if now.Sub(v.lastUse) > r.ReapInterval {
-				// Drop the bucket, if there happen to be any waiting Take for it.
-				// It will return 'false', but this is fine for us since this
-				// whole 'reaping' process will run only when we are under a
-				// high load and dropping random requests in this case is a
-				// more or less reasonable thing to do.
+			// Buckets with waiting Take calls or unreleased resources are
+			// never dropped: a replacement bucket would hand out the same
+			// resources again and the pending Release would hit the wrong
+			// bucket.
+			if v.users == 0 && now.Sub(v.lastUse) > r.ReapInterval {
 				v.r.Close()
 				delete(r.m, k)
 			}
@@ -113,6 +115,7 @@ func (r *BucketSet) take(key string) L {
 		r.m[key] = &struct {
 			r       L
 			lastUse time.Time
+			users   int
 		}{
 			r:       r.New(),
 			lastUse: time.Now(),
@@ -120,8 +123,19 @@ func (r *BucketSet) take(key string) L {
 		bucket = r.m[key]
 	}
 	r.m[key].lastUse = time.Now()
+	bucket.users++
 
 	return bucket.r
+}
+
+// done undoes the users accounting of take for a failed Take/TakeContext.
+func (r *BucketSet) done(key string) {
+	r.mLck.Lock()
+	defer r.mLck.Unlock()
+
+	if bucket, ok := r.m[key]; ok && bucket.users > 0 {
+		bucket.users--
+	}
 }
 
 func (r *BucketSet) Take(key string) bool {
@@ -133,7 +147,11 @@ func (r *BucketSet) Take(key string) bool {
 	if bucket == nil {
 		return false
 	}
-	return bucket.Take()
+	if !bucket.Take() {
+		r.done(key)
+		return false
+	}
+	return true
 }
 
 func (r *BucketSet) Release(key string) {
@@ -149,6 +167,9 @@ func (r *BucketSet) Release(key string) {
 		return
 	}
 	bucket.r.Release()
+	if bucket.users > 0 {
+		bucket.users--
+	}
 }
 
 func (r *BucketSet) TakeContext(ctx context.Context, key string) error {
@@ -160,5 +181,9 @@ func (r *BucketSet) TakeContext(ctx context.Context, key string) error {
 	if bucket == nil {
 		return ErrBucketsExhausted
 	}
-	return bucket.TakeContext(ctx)
+	if err := bucket.TakeContext(ctx); err != nil {
+		r.done(key)
+		return err
+	}
+	return nil
 }
